@@ -63,5 +63,342 @@ Definition lifted_eqb (a b : mlifted) : bool :=
   list_eqb (fun x y => (fst x =? fst y) && cfg_eqb (snd x) (snd y)) (fst a) (fst b) &&
   list_eqb (fun x y => (fst x =? fst y) && opt_eqb expr_eqb (snd x) (snd y)) (snd a) (snd b).
 
-(* placeholder until the builders are transcribed *)
-Definition mirror_block (bg : bool) (addr : Z) (ws : list Z) (temps : list (list N)) : option mlifted := None.
+(* ---------- registers (MIPS_REGISTERS, MipsRegister::scalar / ::expression) ---------- *)
+Definition reg_scalar (r : Z) : scalar := mks (Z.to_N r) 32 None.
+Definition reg_expr (r : Z) : expr := if r =? 0 then expr_const 0 32 else EScalar (reg_scalar r).
+Definition sc (id : Z) (bits : Z) : scalar := mks (Z.to_N id) bits None.
+Definition tmp (id : N) (bits : Z) : scalar := mks id bits None.
+
+(* capstone presents immediates as i64; the builders cast `as u64` *)
+Definition cs_simm (imm : Z) : Z := if imm <? 2 ^ 15 then imm else 2 ^ 64 - 2 ^ 16 + imm.   (* sign-extended 16-bit field, as u64 *)
+Definition cs_target (a : Z) : Z := a mod 2 ^ 64.
+
+(* ---------- graph construction (ControlFlowGraph::new_block, Block::assign/load/store/..., set_address) ---------- *)
+Fixpoint number (addr : option Z) (i : Z) (ops : list operation) : list instruction :=
+  match ops with [] => [] | o :: t => mkinstr i o addr :: number addr (i + 1) t end.
+Definition blk (i : Z) (addr : option Z) (ops : list operation) : block :=
+  mkblock i (Z.of_nat (length ops)) (number addr 0 ops) [].
+Definition single (addr : option Z) (ops : list operation) : cfg :=
+  mkcfg [blk 0 addr ops] [] 1 (Some 0) (Some 0).
+Definition edge_c (h t : Z) (c : expr) : edge := mkedge h t (Some c).
+Definition edge_u (h t : Z) : edge := mkedge h t None.
+Definition intr (m : N) (declared : bool) : operation :=
+  OIntrinsic (mkintr m [] (if declared then Some [] else None) (if declared then Some [] else None)).
+Definition c0_1 : expr := expr_const 0 1.
+Definition not1 (c : expr) : res expr := mk_bin Cmpeq c c0_1.
+
+(* ---------- builders of semantics.rs ---------- *)
+Section Builders.
+Variable addr : option Z.     (* the address set_address puts on every instruction of the graph *)
+
+(* addu, and, or, xor, subu: dst <- op(lhs, rhs) *)
+Definition b_bin3 (o : binop) (rd rs rt : Z) : res cfg :=
+  e <- mk_bin o (reg_expr rs) (reg_expr rt) ;; Ok (single addr [OAssign (reg_scalar rd) e]).
+Definition b_move (rd rs : Z) : res cfg := Ok (single addr [OAssign (reg_scalar rd) (reg_expr rs)]).
+Definition b_negu (rd rs : Z) : res cfg :=
+  e <- mk_bin Sub (expr_const 0 32) (reg_expr rs) ;; Ok (single addr [OAssign (reg_scalar rd) e]).
+Definition b_nor (rd rs rt : Z) : res cfg :=
+  o <- mk_bin Or (reg_expr rs) (reg_expr rt) ;; e <- mk_bin Xor o (expr_const 4294967295 32) ;;
+  Ok (single addr [OAssign (reg_scalar rd) e]).
+Definition b_mul (rd rs rt : Z) : res cfg :=
+  a <- mk_ext Sext 64 (reg_expr rs) ;; b <- mk_ext Sext 64 (reg_expr rt) ;; m <- mk_bin Mul a b ;;
+  e <- mk_ext Trun 32 m ;; Ok (single addr [OAssign (reg_scalar rd) e]).
+
+(* add, sub (rs, rt registers) and addi (rhs an immediate): four-block trapping graph *)
+Definition b_trapping (o : binop) (dst : scalar) (lhs rhs : expr) : res cfg :=
+  op <- mk_bin o lhs rhs ;;
+  l64 <- mk_ext Sext 64 lhs ;; r64 <- mk_ext Sext 64 rhs ;; t <- mk_bin o l64 r64 ;;
+  s32 <- mk_bin Shr t (expr_const 32 64) ;; b32 <- mk_ext Trun 1 s32 ;;
+  s31 <- mk_bin Shr t (expr_const 31 64) ;; b31 <- mk_ext Trun 1 s31 ;;
+  cond <- mk_bin Cmpneq b32 b31 ;; ncond <- not1 cond ;;
+  Ok (mkcfg [blk 0 addr [ONop None]; blk 1 addr [intr I_OVERFLOW false]; blk 2 addr [OAssign dst op]; blk 3 addr []]
+            [edge_c 0 1 cond; edge_c 0 2 ncond; edge_u 1 3; edge_u 2 3] 4 (Some 0) (Some 3)).
+Definition b_add (rd rs rt : Z) := b_trapping Add (reg_scalar rd) (reg_expr rs) (reg_expr rt).
+Definition b_sub (rd rs rt : Z) := b_trapping Sub (reg_scalar rd) (reg_expr rs) (reg_expr rt).
+Definition b_addi (rt rs imm : Z) := b_trapping Add (reg_scalar rt) (reg_expr rs) (expr_const (cs_simm imm) 32).
+
+(* addiu, andi, ori, xori: dst <- op(lhs, const) *)
+Definition b_bini (o : binop) (rt rs immv : Z) : res cfg :=
+  e <- mk_bin o (reg_expr rs) (expr_const immv 32) ;; Ok (single addr [OAssign (reg_scalar rt) e]).
+Definition b_lui (rt imm : Z) : res cfg := Ok (single addr [OAssign (reg_scalar rt) (expr_const (imm * 2 ^ 16) 32)]).
+
+(* slt, sltu, slti, sltiu: two-way graph assigning 1 or 0 *)
+Definition b_setlt (o : binop) (dst : scalar) (lhs rhs : expr) : res cfg :=
+  c <- mk_bin o lhs rhs ;; c' <- mk_bin o lhs rhs ;; nc <- not1 c' ;;
+  Ok (mkcfg [blk 0 addr [ONop None]; blk 1 addr [OAssign dst (expr_const 1 32)]; blk 2 addr [OAssign dst (expr_const 0 32)]; blk 3 addr []]
+            [edge_c 0 1 c; edge_c 0 2 nc; edge_u 1 3; edge_u 2 3] 4 (Some 0) (Some 3)).
+
+(* movn / movz *)
+Definition b_movc (take_if : binop) (skip_if : binop) (rd rs rt : Z) : res cfg :=
+  c <- mk_bin take_if (reg_expr rt) (expr_const 0 32) ;; nc <- mk_bin skip_if (reg_expr rt) (expr_const 0 32) ;;
+  Ok (mkcfg [blk 0 addr [ONop None]; blk 1 addr [OAssign (reg_scalar rd) (reg_expr rs)]; blk 2 addr []]
+            [edge_c 0 1 c; edge_c 0 2 nc; edge_u 1 2] 3 (Some 0) (Some 2)).
+
+(* sll, srl, sra (immediate amount) and sllv, srlv, srav (amount = rs & 0x1f) *)
+Definition b_shi (o : binop) (rd rt sa : Z) : res cfg :=
+  e <- mk_bin o (reg_expr rt) (expr_const sa 32) ;; Ok (single addr [OAssign (reg_scalar rd) e]).
+Definition b_shv (o : binop) (rd rt rs : Z) : res cfg :=
+  n <- mk_bin And (reg_expr rs) (expr_const 31 32) ;; e <- mk_bin o (reg_expr rt) n ;;
+  Ok (single addr [OAssign (reg_scalar rd) e]).
+
+(* clo / clz: counting loop; `count` = control_flow_graph.temp(32) *)
+Definition b_clzo (ones_ : bool) (count : N) (rd rs : Z) : res cfg :=
+  let cnt := EScalar (tmp count 32) in
+  inc <- mk_bin Add cnt (expr_const 1 32) ;;
+  d <- mk_bin Sub (expr_const 31 32) cnt ;; sh <- mk_bin Shr (reg_expr rs) d ;; bit <- mk_ext Trun 1 sh ;;
+  nbit <- not1 bit ;;
+  e32 <- mk_bin Cmpeq cnt (expr_const 32 32) ;; n32 <- mk_bin Cmpneq cnt (expr_const 32 32) ;;
+  Ok (mkcfg [blk 0 addr [OAssign (tmp count 32) (expr_const 0 32)]; blk 1 addr [];
+             blk 2 addr [OAssign (tmp count 32) inc]; blk 3 addr [OAssign (reg_scalar rd) cnt]]
+            [edge_u 0 1; edge_c 1 2 (if ones_ then bit else nbit); edge_c 1 3 (if ones_ then nbit else bit);
+             edge_c 2 1 n32; edge_c 2 3 e32] 4 (Some 0) (Some 3)).
+
+(* mult, multu: 64-bit temporary, then $hi / $lo *)
+Definition hi_lo_of (t : scalar) : res (list operation) :=
+  s <- mk_bin Shr (EScalar t) (expr_const 32 64) ;; h <- mk_ext Trun 32 s ;; l <- mk_ext Trun 32 (EScalar t) ;;
+  Ok [OAssign (sc R_HI 32) h; OAssign (sc R_LO 32) l].
+Definition b_mult (x : extop) (t0 : N) (rs rt : Z) : res cfg :=
+  a <- mk_ext x 64 (reg_expr rs) ;; b <- mk_ext x 64 (reg_expr rt) ;; m <- mk_bin Mul a b ;;
+  hl <- hi_lo_of (tmp t0 64) ;;
+  Ok (single addr (OAssign (tmp t0 64) m :: hl)).
+(* madd, maddu, msub, msubu *)
+Definition b_macc (x : extop) (sub_ : bool) (t0 t1 : N) (rs rt : Z) : res cfg :=
+  a <- mk_ext x 64 (reg_expr rs) ;; b <- mk_ext x 64 (reg_expr rt) ;; m <- mk_bin Mul a b ;;
+  zh <- mk_ext Zext 64 (EScalar (sc R_HI 32)) ;; sh <- mk_bin Shl zh (expr_const 32 64) ;;
+  zl <- mk_ext Zext 64 (EScalar (sc R_LO 32)) ;; acc <- mk_bin Or (EScalar (tmp t1 64)) zl ;;
+  r <- (if sub_ then mk_bin Sub (EScalar (tmp t1 64)) (EScalar (tmp t0 64))
+        else mk_bin Add (EScalar (tmp t0 64)) (EScalar (tmp t1 64))) ;;
+  hl <- hi_lo_of (tmp t0 64) ;;
+  Ok (single addr ([OAssign (tmp t0 64) m; OAssign (tmp t1 64) sh; OAssign (tmp t1 64) acc; OAssign (tmp t0 64) r] ++ hl)).
+Definition b_div (q m : binop) (rs rt : Z) : res cfg :=
+  eq <- mk_bin q (reg_expr rs) (reg_expr rt) ;; em <- mk_bin m (reg_expr rs) (reg_expr rt) ;;
+  Ok (single addr [OAssign (sc R_LO 32) eq; OAssign (sc R_HI 32) em]).
+Definition b_mfhilo (rd src : Z) : res cfg := Ok (single addr [OAssign (reg_scalar rd) (EScalar (sc src 32))]).
+Definition b_mthilo (dst rs : Z) : res cfg := Ok (single addr [OAssign (sc dst 32) (reg_expr rs)]).
+
+(* loads and stores *)
+Definition ea (base off : Z) : res expr := mk_bin Add (reg_expr base) (expr_const (cs_simm off) 32).
+Definition b_load_ext (x : extop) (bits : Z) (t : N) (rt base off : Z) : res cfg :=   (* lb lbu lh lhu *)
+  a <- ea base off ;; e <- mk_ext x 32 (EScalar (tmp t bits)) ;;
+  Ok (single addr [OLoad (tmp t bits) a; OAssign (reg_scalar rt) e]).
+Definition b_lw (rt base off : Z) : res cfg :=                                         (* lw, ll *)
+  a <- ea base off ;; Ok (single addr [OLoad (reg_scalar rt) a]).
+Definition b_store_trun (bits : Z) (rt base off : Z) : res cfg :=                      (* sb sh *)
+  a <- ea base off ;; v <- mk_ext Trun bits (reg_expr rt) ;; Ok (single addr [OStore a v]).
+Definition b_sw (rt base off : Z) : res cfg := a <- ea base off ;; Ok (single addr [OStore a (reg_expr rt)]).
+Definition b_sc (rt base off : Z) : res cfg :=
+  a <- ea base off ;; Ok (single addr [OStore a (reg_expr rt); OAssign (reg_scalar rt) (expr_const 1 32)]).
+
+(* unaligned_lane: vAddr[1:0] xor BigEndianCPU^2 *)
+Definition lane_e (bg : bool) (a : expr) : res expr :=
+  byte <- mk_bin And a (expr_const 3 32) ;;
+  if bg then mk_bin Sub (expr_const 3 32) byte else Ok byte.
+Definition aligned_e (a : expr) : res expr := mk_bin And (expr_const 4294967292 32) a.
+Definition b_lwl (bg : bool) (t : N) (rt base off : Z) : res cfg :=
+  a <- ea base off ;; ln <- lane_e bg a ;; al <- aligned_e a ;;
+  d <- mk_bin Sub (expr_const 3 32) ln ;; shift <- mk_bin Shl d (expr_const 3 32) ;;
+  one <- mk_bin Shl (expr_const 1 32) shift ;; keep <- mk_bin Sub one (expr_const 1 32) ;;
+  hi_ <- mk_bin Shl (EScalar (tmp t 32)) shift ;; lo_ <- mk_bin And (reg_expr rt) keep ;;
+  e <- mk_bin Or hi_ lo_ ;;
+  Ok (single addr [OLoad (tmp t 32) al; OAssign (reg_scalar rt) e]).
+Definition b_lwr (bg : bool) (t : N) (rt base off : Z) : res cfg :=
+  a <- ea base off ;; ln <- lane_e bg a ;; al <- aligned_e a ;;
+  shift <- mk_bin Shl ln (expr_const 3 32) ;;
+  d <- mk_bin Sub (expr_const 32 32) shift ;; keep <- mk_bin Shl (expr_const 4294967295 32) d ;;
+  lo_ <- mk_bin Shr (EScalar (tmp t 32)) shift ;; hi_ <- mk_bin And (reg_expr rt) keep ;;
+  e <- mk_bin Or lo_ hi_ ;;
+  Ok (single addr [OLoad (tmp t 32) al; OAssign (reg_scalar rt) e]).
+Definition b_swl (bg : bool) (t : N) (rt base off : Z) : res cfg :=
+  a <- ea base off ;; ln <- lane_e bg a ;; al <- aligned_e a ;;
+  l1 <- mk_bin Add ln (expr_const 1 32) ;; kb <- mk_bin Shl l1 (expr_const 3 32) ;;
+  keep <- mk_bin Shl (expr_const 4294967295 32) kb ;;
+  d <- mk_bin Sub (expr_const 3 32) ln ;; shift <- mk_bin Shl d (expr_const 3 32) ;;
+  old <- mk_bin And (EScalar (tmp t 32)) keep ;; new <- mk_bin Shr (reg_expr rt) shift ;;
+  e <- mk_bin Or old new ;;
+  Ok (single addr [OLoad (tmp t 32) al; OStore al e]).
+Definition b_swr (bg : bool) (t : N) (rt base off : Z) : res cfg :=
+  a <- ea base off ;; ln <- lane_e bg a ;; al <- aligned_e a ;;
+  shift <- mk_bin Shl ln (expr_const 3 32) ;;
+  one <- mk_bin Shl (expr_const 1 32) shift ;; keep <- mk_bin Sub one (expr_const 1 32) ;;
+  new <- mk_bin Shl (reg_expr rt) shift ;; old <- mk_bin And (EScalar (tmp t 32)) keep ;;
+  e <- mk_bin Or new old ;;
+  Ok (single addr [OLoad (tmp t 32) al; OStore al e]).
+
+(* teq, break, syscall, nop *)
+Definition b_teq (rs rt : Z) : res cfg :=
+  e <- mk_bin Cmpeq (reg_expr rs) (reg_expr rt) ;; n <- mk_bin Cmpneq (reg_expr rs) (reg_expr rt) ;;
+  Ok (mkcfg [blk 0 addr [ONop None]; blk 1 addr []; blk 2 addr [intr I_TRAP true]]
+            [edge_c 0 1 n; edge_c 0 2 e; edge_u 2 1] 3 (Some 0) (Some 1)).
+Definition b_intr (m : N) : res cfg := Ok (single addr [intr m true]).
+Definition b_nop : res cfg := Ok (single addr [ONop None]).
+Definition b_empty : res cfg := Ok (single addr []).          (* semantics::b, semantics::j *)
+
+(* branch graphs placed after the delay slot *)
+Definition b_branch_const (target : Z) : res cfg := Ok (single addr [OBranch (expr_const target 32)]).   (* bal, jal *)
+Definition b_branch_reg (rs : Z) : res cfg := Ok (single addr [OBranch (reg_expr rs)]).                  (* jr, jalr *)
+Definition b_cond_link (target : Z) : res cfg :=                                                         (* bgezal, bltzal *)
+  let bc := EScalar (sc R_BC 1) in
+  nc <- not1 bc ;;
+  Ok (mkcfg [blk 0 addr [ONop None]; blk 1 addr [OBranch (expr_const target 32)]; blk 2 addr []]
+            [edge_c 0 1 bc; edge_c 0 2 nc; edge_u 1 2] 3 (Some 0) (Some 2)).
+End Builders.
+
+(* ---------- dispatch of mod.rs for one non-control instruction, with capstone's aliases ----------
+   None = no claim (form not mirrored, or capstone presents an instruction the lifter does not handle) *)
+Definition nthN (l : list N) (i : nat) : N := nth i l 0%N.
+
+Definition lift_plain (bg : bool) (i : minstr) (a : Z) (ts : list N) : option (res cfg) :=
+  let ad := Some a in
+  match i with
+  | MAlu3 AAdd rd rs rt => Some (b_add ad rd rs rt)
+  | MAlu3 AAddu rd rs rt => Some (if rt =? 0 then b_move ad rd rs else b_bin3 ad Add rd rs rt)     (* addu d, s, $zero = move *)
+  | MAlu3 ASub rd rs rt => if rs =? 0 then None (* neg: not handled *) else Some (b_sub ad rd rs rt)
+  | MAlu3 ASubu rd rs rt => Some (if rs =? 0 then b_negu ad rd rt else b_bin3 ad Sub rd rs rt)     (* subu d, $zero, t = negu *)
+  | MAlu3 AAnd rd rs rt => Some (b_bin3 ad And rd rs rt)
+  | MAlu3 AOr rd rs rt => Some (if rt =? 0 then b_move ad rd rs else b_bin3 ad Or rd rs rt)        (* or d, s, $zero = move *)
+  | MAlu3 AXor rd rs rt => Some (b_bin3 ad Xor rd rs rt)
+  | MAlu3 ANor rd rs rt => if rt =? 0 then None (* not: not handled *) else Some (b_nor ad rd rs rt)
+  | MAlu3 ASlt rd rs rt => Some (b_setlt ad Cmplts (reg_scalar rd) (reg_expr rs) (reg_expr rt))
+  | MAlu3 ASltu rd rs rt => Some (b_setlt ad Cmpltu (reg_scalar rd) (reg_expr rs) (reg_expr rt))
+  | MAlu3 AMovn rd rs rt => Some (b_movc ad Cmpneq Cmpeq rd rs rt)
+  | MAlu3 AMovz rd rs rt => Some (b_movc ad Cmpeq Cmpneq rd rs rt)
+  | MAlu3 AMul rd rs rt => Some (b_mul ad rd rs rt)
+  | MShi o rd rt sa =>
+      match o with
+      | SSll => if (rd =? 0) && (rt =? 0) then (if sa =? 0 then Some (b_nop ad) else None (* ssnop, ehb, pause *))
+                else Some (b_shi ad Shl rd rt sa)
+      | SSrl => Some (b_shi ad Shr rd rt sa)
+      | SSra => Some (b_shi ad AShr rd rt sa)
+      end
+  | MShv o rd rt rs => Some (b_shv ad (match o with SSll => Shl | SSrl => Shr | SSra => AShr end) rd rt rs)
+  | MAluI IAddi rt rs imm => Some (b_addi ad rt rs imm)
+  | MAluI IAddiu rt rs imm => Some (b_bini ad Add rt rs (cs_simm imm))
+  | MAluI ISlti rt rs imm => Some (b_setlt ad Cmplts (reg_scalar rt) (reg_expr rs) (expr_const (cs_simm imm) 32))
+  | MAluI ISltiu rt rs imm => Some (b_setlt ad Cmpltu (reg_scalar rt) (reg_expr rs) (expr_const (cs_simm imm) 32))
+  | MAluI IAndi rt rs imm => Some (b_bini ad And rt rs imm)
+  | MAluI IOri rt rs imm => Some (b_bini ad Or rt rs imm)
+  | MAluI IXori rt rs imm => Some (b_bini ad Xor rt rs imm)
+  | MLui rt imm => Some (b_lui ad rt imm)
+  | MClz rd rs => Some (b_clzo ad false (nthN ts 0) rd rs)
+  | MClo rd rs => Some (b_clzo ad true (nthN ts 0) rd rs)
+  | MMulDiv MMult rs rt => Some (b_mult ad Sext (nthN ts 0) rs rt)
+  | MMulDiv MMultu rs rt => Some (b_mult ad Zext (nthN ts 0) rs rt)
+  | MMulDiv MDiv rs rt => Some (b_div ad Divs Mods rs rt)
+  | MMulDiv MDivu rs rt => Some (b_div ad Divu Modu rs rt)
+  | MMulDiv MMadd rs rt => Some (b_macc ad Sext false (nthN ts 0) (nthN ts 1) rs rt)
+  | MMulDiv MMaddu rs rt => Some (b_macc ad Zext false (nthN ts 0) (nthN ts 1) rs rt)
+  | MMulDiv MMsub rs rt => Some (b_macc ad Sext true (nthN ts 0) (nthN ts 1) rs rt)
+  | MMulDiv MMsubu rs rt => Some (b_macc ad Zext true (nthN ts 0) (nthN ts 1) rs rt)
+  | MMfhi rd => Some (b_mfhilo ad rd R_HI)
+  | MMflo rd => Some (b_mfhilo ad rd R_LO)
+  | MMthi rs => Some (b_mthilo ad R_HI rs)
+  | MMtlo rs => Some (b_mthilo ad R_LO rs)
+  | MLoad LLb rt b o => Some (b_load_ext ad Sext 8 (nthN ts 0) rt b o)
+  | MLoad LLbu rt b o => Some (b_load_ext ad Zext 8 (nthN ts 0) rt b o)
+  | MLoad LLh rt b o => Some (b_load_ext ad Sext 16 (nthN ts 0) rt b o)
+  | MLoad LLhu rt b o => Some (b_load_ext ad Zext 16 (nthN ts 0) rt b o)
+  | MLoad LLw rt b o | MLoad LLl rt b o => Some (b_lw ad rt b o)
+  | MLoad LLwl rt b o => Some (b_lwl ad bg (nthN ts 0) rt b o)
+  | MLoad LLwr rt b o => Some (b_lwr ad bg (nthN ts 0) rt b o)
+  | MStore SSb rt b o => Some (b_store_trun ad 8 rt b o)
+  | MStore SSh rt b o => Some (b_store_trun ad 16 rt b o)
+  | MStore SSw rt b o => Some (b_sw ad rt b o)
+  | MStore SSc rt b o => Some (b_sc ad rt b o)
+  | MStore SSwl rt b o => Some (b_swl ad bg (nthN ts 0) rt b o)
+  | MStore SSwr rt b o => Some (b_swr ad bg (nthN ts 0) rt b o)
+  | MTeq rs rt _ => Some (b_teq ad rs rt)
+  | MBreak _ => Some (b_intr ad I_BREAK)
+  | MSyscall _ => Some (b_intr ad I_SYSCALL)
+  | MSync _ | MPref _ _ _ => Some (b_nop ad)
+  | _ => None
+  end.
+
+(* ---------- translate_block: a branch, its delay slot, the successors ---------- *)
+Definition bc_scalar : scalar := sc R_BC 1.
+Definition bc_expr : expr := EScalar bc_scalar.
+
+(* capstone's absolute targets *)
+Definition cs_btarget (a off : Z) : Z := cs_target (a + 4 + sx16 off * 4).
+Definition cs_jtarget (a idx : Z) : Z := (a + 4) / 2 ^ 28 * 2 ^ 28 + idx * 4.
+
+(* the graph pushed at the branch's own address, before the delay slot:
+   nop_graph | conditional_graph(condition) | semantics::link_graph *)
+Definition pre_graph (b : minstr) (a : Z) : option (res cfg) :=
+  let ad := Some a in
+  let link (r : Z) := OAssign (reg_scalar r) (expr_const (a + 8) 32) in
+  let zero := expr_const 0 32 in
+  let cond (c : res expr) := Some (e <- c ;; Ok (single ad [OAssign bc_scalar e])) in
+  match b with
+  | MJ _ | MJr _ => Some (b_nop ad)
+  | MJal _ => Some (Ok (single ad [link 31]))
+  | MJalr rd rs => if rd =? 0 then Some (b_nop ad) (* capstone: jr rs *) else Some (Ok (single ad [link rd]))
+  | MBr2 BEq rs rt _ =>
+      if (rs =? 0) && (rt =? 0) then Some (b_nop ad)                              (* b *)
+      else if rt =? 0 then cond (mk_bin Cmpeq (reg_expr rs) zero)                 (* beqz *)
+      else cond (mk_bin Cmpeq (reg_expr rs) (reg_expr rt))
+  | MBr2 BNe rs rt _ =>
+      if rt =? 0 then cond (mk_bin Cmpneq (reg_expr rs) zero)                     (* bnez *)
+      else cond (mk_bin Cmpneq (reg_expr rs) (reg_expr rt))
+  | MBrz BGez rs _ => cond (c <- mk_bin Cmplts (reg_expr rs) zero ;; not1 c)
+  | MBrz BGtz rs _ => cond (mk_bin Cmplts zero (reg_expr rs))
+  | MBrz BLez rs _ => cond (l <- mk_bin Cmplts (reg_expr rs) zero ;; e <- mk_bin Cmpeq (reg_expr rs) zero ;; mk_bin Or l e)
+  | MBrz BLtz rs _ => cond (mk_bin Cmplts (reg_expr rs) zero)
+  | MBrzal BGezal rs _ =>
+      if rs =? 0 then Some (Ok (single ad [link 31]))                             (* bal *)
+      else Some (c <- mk_bin Cmplts (reg_expr rs) zero ;; e <- not1 c ;; Ok (single ad [OAssign bc_scalar e; link 31]))
+  | MBrzal BLtzal rs _ =>
+      Some (c <- mk_bin Cmplts (reg_expr rs) zero ;; Ok (single ad [OAssign bc_scalar c; link 31]))
+  | _ => None
+  end.
+
+(* the branch's own graph, re-addressed to a + 1 and placed after the delay slot *)
+Definition post_graph (b : minstr) (a : Z) : option (res cfg) :=
+  let ad := Some (a + 1) in
+  match b with
+  | MJ _ | MBr2 _ _ _ _ | MBrz _ _ _ => Some (b_empty ad)
+  | MJal idx => Some (b_branch_const ad (cs_jtarget a idx))
+  | MJr rs | MJalr _ rs => Some (b_branch_reg ad rs)
+  | MBrzal BGezal rs off => if rs =? 0 then Some (b_branch_const ad (cs_btarget a off)) else Some (b_cond_link ad (cs_btarget a off))
+  | MBrzal BLtzal rs off => Some (b_cond_link ad (cs_btarget a off))
+  | _ => None
+  end.
+
+Definition succs_of (b : minstr) (a : Z) : list (Z * option expr) :=
+  let two (t : Z) := match not1 bc_expr with
+                     | Ok n => [(t, Some bc_expr); (a + 8, Some n)]
+                     | _ => [] end in
+  match b with
+  | MJ idx => [(cs_jtarget a idx, None)]
+  | MJr _ => []
+  | MJalr rd _ => if rd =? 0 then [] else [(a + 8, None)]
+  | MJal _ | MBrzal _ _ _ => [(a + 8, None)]
+  | MBr2 BEq rs rt off => if (rs =? 0) && (rt =? 0) then [(cs_btarget a off, None)] else two (cs_btarget a off)
+  | MBr2 BNe _ _ off | MBrz _ _ off => two (cs_btarget a off)
+  | _ => []
+  end.
+
+Definition okc (o : option (res cfg)) : option cfg := match o with Some (Ok g) => Some g | _ => None end.
+
+Definition mirror_block (bg : bool) (addr : Z) (ws : list Z) (temps : list (list N)) : option mlifted :=
+  match ws with
+  | [w] =>
+      match decode w with
+      | Some i => if is_control i then None else
+          match okc (lift_plain bg i addr (nth 0 temps [])) with
+          | Some g => Some ([(addr, g)], [(addr + 4, None)])
+          | None => None
+          end
+      | None => None
+      end
+  | [w1; w2] =>
+      match decode w1, decode w2 with
+      | Some b, Some sl =>
+          if negb (is_control b) || is_control sl then None else
+          match okc (pre_graph b addr), okc (lift_plain bg sl (addr + 4) (nth 1 temps [])), okc (post_graph b addr) with
+          | Some p, Some s, Some q => Some ([(addr, p); (addr + 4, s); (addr + 1, q)], succs_of b addr)
+          | _, _, _ => None
+          end
+      | _, _ => None
+      end
+  | _ => None
+  end.
